@@ -18,7 +18,7 @@ ASSUMPTIONS = ["point(t) is the reference curve (C03/C04); arcs are evaluated on
                "tolerance 1e-9*size + 1e-11*|position| for Beziers; arcs 1e-7*size (2e-4*size in the exactly-fitting window, as in C04)"]
 CONFIGS = ['scipy']
 BUDGET = {'quick': 16000, 'thorough': 300000}
-REQUIRED = ['kind:Q', 'kind:C', 'kind:A', 'kind:L', 'class:elevated', 'arc_extremes:0', 'arc_extremes:2', 'arc_extremes:4', 'path',
+REQUIRED = ['then:translated', 'then:reversed', 'then:rotated', 'then:reassigned', 'kind:Q', 'kind:C', 'kind:A', 'kind:L', 'class:elevated', 'arc_extremes:0', 'arc_extremes:2', 'arc_extremes:4', 'path',
             'interior_extreme']
 
 EPS = 2.0 ** -52
@@ -34,10 +34,11 @@ def strategy(tier, config):
                                                                 break_prob=draw(st.sampled_from([0, 20]))))}
         if draw(st.integers(0, 3)) == 0:
             a = draw(st.one_of(gen.arc_center_form(), gen.arc_center_form(), gen.arc_endpoint_form()))
-            return {'what': 'seg', 'spec': a['spec'], 'tag': 'arc'}
+            return {'what': 'seg', 'spec': a['spec'], 'tag': 'arc', 'then': draw(st.sampled_from(['none', 'none', 'translated', 'reversed', 'rotated']))}
         b = draw(gen.bezier_spec(classes=['generic', 'generic', 'collinear', 'foldback', 'repeat_start', 'repeat_end', 'repeat_mid',
                                           'elevated', 'elevated', 'elevated', 'axis', 'symmetric']))
-        return {'what': 'seg', 'spec': b['spec'], 'tag': b['tag']}
+        return {'what': 'seg', 'spec': b['spec'], 'tag': b['tag'],
+                'then': draw(st.sampled_from(['none', 'none', 'translated', 'reversed', 'rotated', 'reassigned']))}
     return s()
 
 
@@ -189,6 +190,14 @@ def check_seg(ctx, spec, seg, tag):
     return xmin, xmax, ymin, ymax
 
 
+def arc_admissible(spec):
+    from vp.ref import arc_ref
+    if spec[1] == spec[6] or 0 in spec[2]:
+        return False
+    L = arc_ref.lam(spec[1], spec[2][0], spec[2][1], spec[3], spec[6])
+    return 1e-12 < L < 1e12
+
+
 def check(case, ctx):
     if case['what'] == 'seg':
         spec = case['spec']
@@ -200,7 +209,24 @@ def check(case, ctx):
             if not (1e-12 < L < 1e12):
                 ctx.discard('arc chord/radius ratio extreme (C04 KF01 territory)')
         seg = ctx.lib('build', gen.build_seg, spec)
-        check_seg(ctx, spec, seg, case['tag'])
+        x0, x1, y0, y1 = check_seg(ctx, spec, seg, case['tag'])
+        # an object derived from the one just queried, or the same object edited in place, gets its own box
+        then = case.get('then', 'none')
+        if then != 'none':
+            w, h = max(x1 - x0, y1 - y0), max(x1 - x0, y1 - y0)
+            if then == 'translated':
+                d = ctx.lib('translated', seg.translated, complex(3 * w + 1, -2 * h - 1))
+            elif then == 'reversed':
+                d = ctx.lib('reversed', seg.reversed)
+            elif then == 'rotated':
+                d = ctx.lib('rotated', seg.rotated, 90, seg.start)
+            else:
+                seg.start = seg.start + complex(-2 * w - 1, 3 * h + 1)
+                d = seg
+            ctx.count('then:' + then)
+            spec_d = gen.seg_spec_of(d)
+            if spec_d[0] != 'A' or arc_admissible(spec_d):
+                check_seg(ctx, spec_d, d, case['tag'])
         return
     specs = case['segs']
     path = ctx.lib('build', gen.build_path, specs)
